@@ -19,7 +19,9 @@
       - inline math [$ … $], [\( … \)] and display math [\[ … \]] wherever the
         parsing state is not in math mode (so: no math nested in math, except
         inside an argument that leaves math mode),
-      - comments [% text newline whitespace] (stage (d), first half).
+      - comments [% text newline whitespace] and paragraph breaks (a whitespace
+        run with two or more newlines that ends with its last newline, where the
+        context has the [\n\n] specials) (stage (d)).
 
     Whitespace is a FIELD of the item it precedes ([ws]: the token's
     [pre_space]) and of each body ([tr]: the whitespace before the closing
@@ -43,7 +45,8 @@ Inductive item :=
 | Grp (ws : str) (body : list item) (tr : str)        (* ws { body tr } *)
 | Mac (ws name post : str) (args : list item)         (* ws \name post {arg}...{arg} *)
 | Math (ws : str) (k : mathkind) (body : list item) (tr : str)    (* ws $ body tr $ *)
-| Cmt (ws text post : str).                            (* ws % text post   (post = newline, then whitespace) *)
+| Cmt (ws text post : str)                             (* ws % text post   (post = newline, then whitespace) *)
+| Par (ws mid : str).                                  (* ws newline mid newline   (paragraph break) *)
 
 Record doc := { d_items : list item; d_trail : str }.
 
@@ -55,13 +58,14 @@ Fixpoint unparse_item (i : item) : str :=
   | Mac ws name post args => ws ++ 92%N :: name ++ post ++ flat_map unparse_item args
   | Math ws k b tr => ws ++ m_open k ++ flat_map unparse_item b ++ tr ++ m_close k
   | Cmt ws text post => ws ++ 37%N :: text ++ post
+  | Par ws mid => ws ++ 10%N :: mid ++ [10%N]
   end.
 Definition unparse_items (l : list item) : str := flat_map unparse_item l.
 Definition unparse (d : doc) : str := unparse_items (d_items d) ++ d_trail d.
 
 Definition ilen (i : item) : nat := length (unparse_item i).
 Definition item_ws (i : item) : str :=
-  match i with Text ws _ | Grp ws _ _ | Mac ws _ _ _ | Math ws _ _ _ | Cmt ws _ _ => ws end.
+  match i with Text ws _ | Grp ws _ _ | Mac ws _ _ _ | Math ws _ _ _ | Cmt ws _ _ | Par ws _ => ws end.
 
 (** * Side conditions *)
 
@@ -107,6 +111,13 @@ Definition mac_follow_ok (name post : str) (after : option N) : bool :=
   | [] => false
   end.
 
+(** the context declares the paragraph-break specials [\n\n], without arguments *)
+Definition par_spec_ok (cx : context) : bool :=
+  match get_specials_spec cx [10;10]%N with
+  | Some sp => match sp_args sp with APStd [] => true | _ => false end
+  | None => false
+  end.
+
 (** [ok_item cx ps i nxt]: [i] is unambiguous when written in parsing state
     [ps] and followed by the character [nxt] ([None]: end of input) *)
 Fixpoint ok_item (cx : context) (ps : pstate) (i : item) (nxt : option N) {struct i} : bool :=
@@ -136,6 +147,11 @@ Fixpoint ok_item (cx : context) (ps : pstate) (i : item) (nxt : option N) {struc
       ws_ok ws && negb (mem_c 10 text) && ws_ok post
       && match post with 10%N :: _ => true | _ => false end
       && negb (otest is_space nxt)
+  | Par ws mid =>
+      (* a whitespace run [ws newline mid newline] that ends with its last newline
+         (the next line is not indented), in a context with the [\n\n] specials *)
+      forallb is_space ws && negb (mem_c 10 ws) && forallb is_space mid
+      && negb (otest is_space nxt) && par_spec_ok cx
   | Mac ws name post args =>
       ws_ok ws && ws_ok post && name_ok name post
       && match get_macro_spec cx name with
@@ -233,6 +249,10 @@ Fixpoint node_of (cx : context) (ps : pstate) (p0 : nat) (i : item) {struct i} :
   | Text _ _ => None
   | Cmt _ text post =>
       Some (NComment p0 (p0 + 1 + length text + length post) (ps_mode ps) text post)
+  | Par _ mid =>
+      if par_spec_ok cx
+      then Some (NSpecials p0 (p0 + 1 + length mid + 1) (ps_mode ps) [10;10]%N (Some ([], [])))
+      else None
   | Grp _ b tr =>
       let r := body ps (S p0) cs_empty b in
       Some (NGroup p0 (snd r + length tr + 1) (ps_mode ps) [123%N] [125%N]
@@ -376,6 +396,7 @@ Fixpoint wsv (i i' : item) {struct i} : Prop :=
   | Mac ws nm post a, Mac ws' nm' post' a' => wse ws ws' /\ nm = nm' /\ wse post post' /\ all2 a a'
   | Math ws k b tr, Math ws' k' b' tr' => wse ws ws' /\ k = k' /\ wse tr tr' /\ all2 b b'
   | Cmt ws text post, Cmt ws' text' post' => wse ws ws' /\ text = text' /\ wse post post'
+  | Par ws mid, Par ws' mid' => wse ws ws'
   | _, _ => False
   end.
 Definition wsv_items : list item -> list item -> Prop :=
